@@ -378,6 +378,15 @@ def jobs_hist(prop, tier):
     return j
 
 
+def jobs_lacon(tier):
+    # hidden state of ?lacon_ (added after seeded change C18/1 was missed)
+    j = []
+    for p in 'sdcz':
+        for i in range(2):
+            j.append({'engine': 'mclacon/mclacon.c', 'variant': 'q', 'prec': p, 'args': ['--prop', 'C18', '--reps', '2' if tier == 'quick' else '6', '--slice', '%d/2' % i]})
+    return j
+
+
 RULE_H = ('exhaustive enumeration of call HISTORIES: every valid word up to the stated depth over the alphabet {F(values,threads): first factorization; R(values,usepr,threads): refactorization that reuses '
           'ordering, etree and L/U storage; S(trans): solve with the existing factors and a fresh right-hand side; D: destroy} on 4 fixed patterns (4x4 unsymmetric, 5x5 cyclic band, 4x4 dense, 4x4 whose supernode count depends on the pivots), 3-4 value sets '
           '(diagonal pivots / other pivots / old pivot fails the threshold half-way / rescaled), internal and user-supplied workspace; the state of a history is the history itself replayed on fresh objects '
@@ -466,6 +475,12 @@ def jobs_C14(tier):
                 for P in (1, 2):
                     if not q or p == 'd':
                         j += fjob(p, 'fill', mat, drv, P)
+    # the recovery path after ONE failing allocation with estimates that are tight after the library's halving (added after seeded change C09/2 was missed)
+    for p in ('d' if q else 'sdcz'):
+        for mat in ((4, 0) if q else (0, 1, 2, 3, 4)):
+            for drv in (0, 1, 2):
+                for P in ((1,) if q else (1, 2)):
+                    j += fjob(p, 'retry', mat, drv, P, slices=1 if q else 2)
     return j
 
 
@@ -543,7 +558,7 @@ SPECS = {
             'assumptions': ['documented clean-up: Destroy_SuperNode_SCP/Destroy_CompCol_NCP (system memory) or Destroy_SuperMatrix_Store + free(work) (user workspace), SUPERLU_FREE of the three ordering arrays, StatFree, Destroy_CompCol_Permuted',
                             'leaks on illegal-argument returns are judged in C15 (oracle leak); leaks on allocation-failure returns in C14', 'thread and file handles: every created thread is joined (C04 monitors); the library opens no files'],
             'deadline': {'quick': 600, 'thorough': 3 * 3600}},
-    'C18': {'jobs': lambda t: jobs_hist('C18', t), 'level': 'exploration', 'rule': RULE_H + '; after every history (and after 1-2 repetitions of 4 extra events: singular call, failed allocation, expert-driver call with other options, another matrix size) a fixed probe (first factorization + 2 solves, 1 thread) is run and its complete output bits are compared with the same probe executed in a freshly forked process',
+    'C18': {'jobs': lambda t: jobs_hist('C18', t) + jobs_lacon(t), 'level': 'exploration', 'rule': RULE_H + '; after every history (and after 1-2 repetitions of 4 extra events: singular call, failed allocation, expert-driver call with other options, another matrix size) a fixed probe (first factorization + 2 solves, 1 thread) is run and its complete output bits are compared with the same probe executed in a freshly forked process; the reverse-communication norm estimator ?lacon_ (function-static loop state, used by every expert-driver call): every 2x2 matrix with entries in -2..2 and every 3x3 matrix with entries in -1..1 (complex: {0,1,-1,i} / {0,1,i}) estimated after representatives of every iteration class and in reverse catalogue order, bit-compared with the estimate made as the only one of a fresh process',
             'assumptions': ['one precision per process: carry-over between the s/d/c/z copies of the static state is not exercised (separate translation units with separate statics)'],
             'deadline': {'quick': 600, 'thorough': 3 * 3600}},
     'C19': {'jobs': jobs_C19, 'level': 'exploration',
